@@ -113,3 +113,19 @@ Example reseat_events : snd (run (reseat_ops false) init) = [Live 1; Destroyed 0
 Proof. vm_compute. reflexivity. Qed.
 Example reseat_alias_events : snd (run (reseat_ops true) init) = [Live 1; Live 2; Touched 1; Destroyed 1; Destroyed 0; Live 0].
 Proof. vm_compute. reflexivity. Qed.
+
+(* --- a loop counter that escapes its loop: var keep; for (var i = 0; i < 3; ++i) { keep := i }; read keep.
+       The counter is an object owned by the loop variable; `keep := i` shares the ownership, so after the loop
+       scope is gone the reader still sees the last value written.  If the loop variable only *referred* to a
+       counter on the evaluator's stack (owned by the frame, modelled as a temporary that dies with the loop),
+       the read would be a use after destruction. *)
+Definition keepv := PRoot (RVar 0 0).
+Definition iv := PRoot (RVar 1 0).
+Definition counter_ops (owned : bool) : list prim :=
+  [PPush] ++
+  (if owned then [PCreate iv false] else [PCreate (PRoot (RTemp 1)) false; PBorrow (PRoot (RTemp 1)) iv]) ++
+  [PWrite iv 0; PShare iv keepv; PWrite iv 1; PWrite iv 2; PWrite iv 3; PStmtEnd 0; PPop; PRead keepv].
+Example counter_owned : snd (run (counter_ops true) init) = [Value 3].
+Proof. vm_compute. reflexivity. Qed.
+Example counter_on_stack : snd (run (counter_ops false) init) = [Destroyed 0; UseAfterFree 0].
+Proof. vm_compute. reflexivity. Qed.
